@@ -335,3 +335,134 @@ func templateStores(c *km.Ctx, fn *ssa.Function, typ, ctor string) map[string][]
 func isErrorType(t types.Type) bool {
 	return types.Identical(t, types.Universe.Lookup("error").Type())
 }
+
+// evalString folds a string expression built at initialisation from constants: literals, concatenation, a
+// package-level string variable assigned once, and strings.Join over a slice literal (local or package-level,
+// assigned once) of such strings.
+func evalString(c *km.Ctx, v ssa.Value, depth int) (string, bool) {
+	if depth > 6 {
+		return "", false
+	}
+	if s, ok := km.ConstString(v); ok {
+		return s, true
+	}
+	switch x := km.Unwrap(v).(type) {
+	case *ssa.BinOp:
+		if x.Op != token.ADD {
+			return "", false
+		}
+		a, ok1 := evalString(c, x.X, depth+1)
+		b, ok2 := evalString(c, x.Y, depth+1)
+		return a + b, ok1 && ok2
+	case *ssa.UnOp:
+		if g, ok := x.X.(*ssa.Global); ok && x.Op == token.MUL {
+			if st := singleStoreTo(c, g); st != nil {
+				return evalString(c, st.Val, depth+1)
+			}
+		}
+	case *ssa.Call:
+		if km.CalleeFull(x.Common()) == "strings.Join" {
+			elems, ok := evalStringSlice(c, x.Common().Args[0], depth+1)
+			sep, ok2 := evalString(c, x.Common().Args[1], depth+1)
+			if ok && ok2 {
+				return strings.Join(elems, sep), true
+			}
+		}
+	}
+	return "", false
+}
+
+// singleStoreTo: the only store into package-level variable g anywhere in the module (nil if none or several).
+func singleStoreTo(c *km.Ctx, g *ssa.Global) *ssa.Store {
+	var found *ssa.Store
+	n := 0
+	for _, fn := range c.P.AllFuncs {
+		if fn.Pkg != g.Pkg {
+			continue
+		}
+		km.Instrs(fn, func(in ssa.Instruction) {
+			if st, ok := in.(*ssa.Store); ok && st.Addr == ssa.Value(g) {
+				found = st
+				n++
+			}
+		})
+	}
+	if n != 1 {
+		return nil
+	}
+	return found
+}
+
+// evalStringSlice: the elements of a []string built as a composite literal of foldable strings.
+func evalStringSlice(c *km.Ctx, v ssa.Value, depth int) ([]string, bool) {
+	if depth > 6 {
+		return nil, false
+	}
+	v = km.Unwrap(v)
+	if u, ok := v.(*ssa.UnOp); ok && u.Op == token.MUL {
+		if g, ok := u.X.(*ssa.Global); ok {
+			// the slice variable must not be written element-wise or re-assigned anywhere
+			st := singleStoreTo(c, g)
+			if st == nil {
+				return nil, false
+			}
+			for _, fn := range c.P.AllFuncs {
+				bad := false
+				km.Instrs(fn, func(in ssa.Instruction) {
+					if ia, ok := in.(*ssa.IndexAddr); ok {
+						if l, ok := km.Unwrap(ia.X).(*ssa.UnOp); ok && l.X == ssa.Value(g) {
+							for _, ref := range *ia.Referrers() {
+								if _, isSt := ref.(*ssa.Store); isSt {
+									bad = true
+								}
+							}
+						}
+					}
+				})
+				if bad {
+					return nil, false
+				}
+			}
+			return evalStringSlice(c, st.Val, depth+1)
+		}
+	}
+	sl, ok := v.(*ssa.Slice)
+	if !ok {
+		return nil, false
+	}
+	arr, ok := sl.X.(*ssa.Alloc)
+	if !ok {
+		return nil, false
+	}
+	at, ok := arr.Type().Underlying().(*types.Pointer).Elem().Underlying().(*types.Array)
+	if !ok {
+		return nil, false
+	}
+	out := make([]string, at.Len())
+	set := make([]bool, at.Len())
+	for _, ref := range *arr.Referrers() {
+		ia, ok := ref.(*ssa.IndexAddr)
+		if !ok {
+			continue
+		}
+		i, ok := km.ConstInt(ia.Index)
+		if !ok || i < 0 || i >= at.Len() {
+			return nil, false
+		}
+		for _, r2 := range *ia.Referrers() {
+			if st, ok := r2.(*ssa.Store); ok && st.Addr == ssa.Value(ia) {
+				s, ok := evalString(c, st.Val, depth+1)
+				if !ok || set[i] {
+					return nil, false
+				}
+				out[i], set[i] = s, true
+			}
+		}
+	}
+	for _, b := range set {
+		if !b {
+			return nil, false
+		}
+	}
+	return out, true
+}
